@@ -51,7 +51,13 @@ func c19xGenerator(optimize bool) *funcGen.FunctionGenerator[float64] {
 		AddGoFunction("cnt", -1, func(a ...float64) (float64, error) { return float64(len(a)), nil }).
 		AddGoFunction("g2", 2, func(a ...float64) (float64, error) { return a[0] - 2*a[1] + 1000*float64(len(a)), nil }).
 		SetToBool(func(c float64) (bool, bool) { return c != 0, true }).
-		SetKeyWords("let", "if", "then", "else").
+		AddGoFunction("chk", 1, func(a ...float64) (float64, error) {
+			if a[0] < 0 {
+				return 0, fmt.Errorf("negative: %v", a[0])
+			}
+			return a[0], nil
+		}).
+		SetKeyWords("let", "if", "then", "else", "try", "catch").
 		SetNumberParser(parser2.NumberParserFunc[float64](func(n string) (float64, error) { return strconv.ParseFloat(n, 64) }))
 	if !optimize {
 		g.SetOptimizer(nil)
@@ -110,6 +116,52 @@ func c19xCases() []c19xCase {
 		{"let p = a; let q = b; let r = c; sum(p, q) + sum(q, r) * cnt(p, q, r)", func(a, b, c float64) float64 { return a + b + (b+c)*3 }},
 		{"let p = a + 1; let q = b + 1; let r = c + 1; p + q * r", func(a, b, c float64) float64 { return a + 1 + (b+1)*(c+1) }},
 		{"sum(a, b)", func(a, b, c float64) float64 { return a + b }},
+		// try / catch of the GENERIC generator (value.New() brings its own): a failing host function in every position
+		{"try chk(a) catch b", func(a, b, c float64) float64 {
+			if a < 0 {
+				return b
+			}
+			return a
+		}},
+		{"try chk(a) + chk(b) catch c", func(a, b, c float64) float64 {
+			if a < 0 || b < 0 {
+				return c
+			}
+			return a + b
+		}},
+		{"f3(try chk(a) catch 7, b, try let h = chk(c); h + 1 catch 0 - 1)", func(a, b, c float64) float64 {
+			x, z := a, c+1
+			if a < 0 {
+				x = 7
+			}
+			if c < 0 {
+				z = -1
+			}
+			return f3(x, b, z)
+		}},
+		{"let x = try chk(a) catch b; x * 2 + c", func(a, b, c float64) float64 {
+			if a < 0 {
+				return b*2 + c
+			}
+			return a*2 + c
+		}},
+		{"try (try chk(a) catch chk(b)) catch c", func(a, b, c float64) float64 {
+			if a >= 0 {
+				return a
+			}
+			if b >= 0 {
+				return b
+			}
+			return c
+		}},
+		{"try f3(a, chk(b), let h = chk(c); h) catch sum(a, b, c)", func(a, b, c float64) float64 {
+			if b < 0 || c < 0 {
+				return a + b + c
+			}
+			return f3(a, b, c)
+		}},
+		{"try chk(1) + 2 catch a", func(a, b, c float64) float64 { return 3 }},
+		{"try chk(0 - 1) catch a + 1", func(a, b, c float64) float64 { return a + 1 }},
 	}
 }
 
